@@ -1208,7 +1208,17 @@ class _OrderedSet(set):
         return self.difference(o)
 
 
+_GEN_CACHE = {}
+
+
 def _is_generator(fnode):
+    r = _GEN_CACHE.get(fnode)
+    if r is None:
+        r = _GEN_CACHE[fnode] = _is_generator_uncached(fnode)
+    return r
+
+
+def _is_generator_uncached(fnode):
     stack = list(fnode.body)
     while stack:
         n = stack.pop()
@@ -1244,7 +1254,7 @@ class PathResult:
         return [f"{tag}={pick}" for pick, n, tag in self.trace]
 
 
-def explore(model: Model, run, hooks_factory=None, max_paths=20000):
+def explore(model: Model, run, hooks_factory=None, max_paths=800):
     """Enumerate every path of `run(interp)` over all Lazy/choose decisions."""
     results = []
     stack = [[]]
